@@ -219,6 +219,7 @@ type world struct {
 
 	knownReported bool
 
+	links      [][]int      // child pool indexes per node
 	incomplete bool         // stratum `incomplete`
 	gone       map[int]bool // persistently lost blocks
 }
@@ -259,8 +260,49 @@ func (w *world) mayError(m *model, q string, ci int) bool {
 		return !inR
 	case "CheckIfPinned", "CheckIfPinnedWithType/any", "CheckIfPinnedWithType/indirect":
 		return true
+	case "CheckIfPinned1/any":
+		return !inR && !inD && !w.mustAnswer(m, ci)
+	case "CheckIfPinned1/indirect":
+		return !inR && !w.mustAnswer(m, ci)
 	}
 	return false
+}
+
+// mustAnswer: a query for the single CID ci cannot depend on a lost block.
+// ci is present and indirectly pinned, and every recursive root with a lost
+// block in its graph reaches ci, is itself present, and has all its lost
+// blocks strictly below ci on every path (ci dominates them). A walk of such a
+// root cannot fetch a lost block before it has matched ci, and after the match
+// nothing more needs to be fetched; complete roots never fail.
+func (w *world) mustAnswer(m *model, ci int) bool {
+	if w.gone[ci] || len(w.viaRoots(m, ci)) == 0 {
+		return false
+	}
+	for r := range m.R {
+		if !w.incompleteRoot(r) {
+			continue
+		}
+		if w.gone[r] || !w.reach[r][ci] {
+			return false
+		}
+		// nodes reachable from r without passing through ci
+		seen := map[int]bool{r: true}
+		stack := []int{r}
+		for len(stack) > 0 {
+			x := stack[len(stack)-1]
+			stack = stack[:len(stack)-1]
+			if w.gone[x] {
+				return false
+			}
+			for _, t := range w.links[x] {
+				if t != ci && !seen[t] {
+					seen[t] = true
+					stack = append(stack, t)
+				}
+			}
+		}
+	}
+	return true
 }
 
 // crossCheck: IsPinned and CheckIfPinned must agree on pinned-ness whenever
@@ -391,9 +433,13 @@ func (w *world) observe(ctx context.Context) []qres {
 			single("IsPinnedWithType/"+modeName(md), ci, reason, pinned, err)
 		}
 	}
+	only := -1 // >= 0: the batch query asked for this single CID
 	batch := func(q string, names bool, res []ipfspin.Pinned, err error) {
 		if err != nil {
 			for ci := range w.pool {
+				if only >= 0 && ci != only {
+					continue
+				}
 				out = append(out, qres{q: q, ci: ci, val: vErr, via: -2})
 			}
 			return
@@ -426,6 +472,12 @@ func (w *world) observe(ctx context.Context) []qres {
 			per[ci] = r
 		}
 		for ci := range w.pool {
+			if only >= 0 && ci != only {
+				if seen[ci] > 0 {
+					out = append(out, qres{q: q, ci: -1, val: "extra " + w.pool[ci].String(), via: -2})
+				}
+				continue
+			}
 			switch seen[ci] {
 			case 0:
 				out = append(out, qres{q: q, ci: ci, val: "no-entry", via: -2})
@@ -448,6 +500,16 @@ func (w *world) observe(ctx context.Context) []qres {
 			batch(q, names, res, err)
 		}
 	}
+	// single-CID batch queries: here the traversal may stop as soon as the CID
+	// is matched
+	for ci, c := range w.pool {
+		only = ci
+		res, err := p.CheckIfPinnedWithType(ctx, ipfspin.Any, false, c)
+		batch("CheckIfPinned1/any", false, res, err)
+		res, err = p.CheckIfPinnedWithType(ctx, ipfspin.Indirect, false, c)
+		batch("CheckIfPinned1/indirect", false, res, err)
+	}
+	only = -1
 	listing := func(q string, detailed bool, ch <-chan ipfspin.StreamedPin) {
 		seen := map[int]int{}
 		per := map[int]string{}
@@ -487,7 +549,7 @@ func (w *world) observe(ctx context.Context) []qres {
 	listing("DirectKeys+detailed", true, p.DirectKeys(ctx, true))
 	listing("RecursiveKeys", false, p.RecursiveKeys(ctx, false))
 	listing("RecursiveKeys+detailed", true, p.RecursiveKeys(ctx, true))
-	w.k.C.Count("queries", int64(len(w.pool)*6+11+4))
+	w.k.C.Count("queries", int64(len(w.pool)*8+11+4))
 	return out
 }
 
@@ -551,7 +613,7 @@ func (w *world) expected(m *model, q string, ci int) (vals []string) {
 		return []string{vFalse}
 	case "IsPinnedWithType/internal":
 		return []string{vFalse}
-	case "CheckIfPinned", "CheckIfPinnedWithType/any":
+	case "CheckIfPinned", "CheckIfPinnedWithType/any", "CheckIfPinned1/any":
 		switch {
 		case inR:
 			return []string{nm("recursive", rname)}
@@ -573,7 +635,7 @@ func (w *world) expected(m *model, q string, ci int) (vals []string) {
 			return []string{nm("direct", dname)}
 		}
 		return []string{"notpinned"}
-	case "CheckIfPinnedWithType/indirect":
+	case "CheckIfPinnedWithType/indirect", "CheckIfPinned1/indirect":
 		if indirect {
 			return []string{"indirect"}
 		}
@@ -615,6 +677,14 @@ func (w *world) compare(obs []qres, m *model) []mismatch {
 	var out []mismatch
 	for _, r := range obs {
 		want := w.expected(m, r.q, r.ci)
+		if w.incomplete && r.q == "CheckIfPinned1/indirect" && r.ci >= 0 && w.mustAnswer(m, r.ci) {
+			for rt := range m.R {
+				if w.incompleteRoot(rt) {
+					w.k.C.Count("single_cid_queries_that_must_answer_despite_lost_blocks", 1)
+					break
+				}
+			}
+		}
 		if r.val == vErr && w.mayError(m, r.q, r.ci) {
 			w.k.C.Count("query_errors_accepted_incomplete_root", 1)
 			continue
@@ -749,6 +819,7 @@ func oneHistory(k *vlib.Case, incomplete bool) {
 	w.index[absent.Cid()] = n
 	links = append(links, nil)
 	k.Logf("node c%d %s absent from the store", n, absent.Cid())
+	w.links = links
 	w.reach = make([]map[int]bool, n+1)
 	for i := 0; i <= n; i++ {
 		w.reach[i] = map[int]bool{}
@@ -809,6 +880,18 @@ func oneHistory(k *vlib.Case, incomplete bool) {
 				sort.Ints(ds)
 				if len(ds) > 0 {
 					ci = ds[r.Intn(len(ds))]
+				}
+				// prefer a block at depth >= 2 (root -> mid -> lost): then `mid`
+				// is still decidable through present blocks only
+				var deep []int
+				for _, d := range ds {
+					for g := range w.reach[d] {
+						deep = append(deep, g)
+					}
+				}
+				sort.Ints(deep)
+				if len(deep) > 0 && r.Chance(3, 4) {
+					ci = deep[r.Intn(len(deep))]
 				}
 			}
 			if w.gone[ci] {
